@@ -231,3 +231,6 @@ Definition prop_verdict (c : vcase) : nat :=
   end.
 
 Definition prop_ok (c : vcase) : bool := Nat.eqb (prop_verdict c) 0.
+
+(* one pass: agreement with the model AND the clauses on the observed behaviour *)
+Definition check_both (c : vcase) : bool := check_case c && prop_ok c.
